@@ -33,6 +33,7 @@ THEOREMS = [
     "Optyx.Props.C05.shortcuts_eq_general",
     "Optyx.Props.C05.names_eq_of_sorted",
     "Optyx.Props.C05.extractLP_sound",
+    "Optyx.Props.Glue.lpRows_table",
 ]
 ASSUMPTIONS = [
     "theorems are over the reals (NumAlg ℝ), the executable model over exact rationals; float rounding / overflow of "
